@@ -85,7 +85,17 @@ class DummyXDP:
         pass
 
 
-def run_schedule(prefix, npart, rseed, restart=(), hostile=False):
+def _ino(lock):
+    """the file a lock object really works on"""
+    import os
+    try:
+        return os.fstat(lock.fd).st_ino
+    except Exception:
+        return None
+
+
+def run_schedule(prefix, npart, rseed, restart=(), hostile=False,
+                 director=None):
     """returns (trace, status, events); participants in `restart` run their
     ParallelEtherCat object a second time after they left (a restart of the
     loop in the same process)"""
@@ -96,6 +106,8 @@ def run_schedule(prefix, npart, rseed, restart=(), hostile=False):
     rng = random.Random(rseed)
 
     def schedule_fn(trace, enabled):
+        if director is not None:
+            return director(sched, trace, enabled)
         i = len(trace)
         if i < len(prefix) and prefix[i] in enabled:
             return prefix[i]
@@ -130,7 +142,9 @@ def run_schedule(prefix, npart, rseed, restart=(), hostile=False):
                         sched.gate(("running-begin",))
                         sched.record("running-begin", dict(
                             ethertype=ec.ethertype,
-                            base=ec.fmmu_lock_file.base_addr))
+                            base=ec.fmmu_lock_file.base_addr,
+                            mbx_file=_ino(ec.mbx_lock_file),
+                            fmmu_file=_ino(ec.fmmu_lock_file)))
                         sched.gate(("hold",))
                         sched.gate(("running-end",))
                         sched.record("running-end")
